@@ -181,7 +181,7 @@ Theorem enc_indent_path : forall body ind newline w res w1,
   (forall e, res = EErr e -> e = ErrShortWrite \/ In (Some e) (map snd (wresp w))) /\
   (exists pre suf, p = pre ++ suf /\ wgot w1 = wgot w ++ pre).
 Proof.
-  intros body ind newline w res w1 H p. unfold Encode in H. fold p in H.
+  intros body ind newline w res w1 H p. unfold Encode in H. change (indent_payload ind newline) with p in H. cbv zeta in H.
   destruct p as [|c p'] eqn:P.
   { inversion H; subst. rewrite app_nil_r. split; auto. split; [intros; discriminate|]. exists [], []. split; [reflexivity|rewrite app_nil_r; reflexivity]. }
   rewrite <- P in *. unfold w_write in H.
@@ -198,4 +198,32 @@ Proof.
       * apply Nat.eqb_eq in E. split; [|split; [intros; discriminate|exact PF]].
         intros _. rewrite E, firstn_all. reflexivity.
       * split; [intros; discriminate|]. split; [|exact PF]. intros e E'. inversion E'; auto.
+Qed.
+
+(* SetIndent path at full strength (io.Copy = bytes.Buffer.WriteTo: ONE Write of the indented text + newline):
+   the outcome is decided by the writer's first answer, case by case *)
+Theorem enc_indent_cases : forall body ind newline w,
+  let p := indent_payload ind newline in
+  p <> [] ->
+  match wresp w with
+  | [] =>                      (* a writer that accepts everything *)
+    Encode (Some body) (Some ind) newline w = (ENil, {| wresp := []; wgot := wgot w ++ p |})
+  | (k, Some e) :: tl =>       (* the Write fails: its error is returned, whatever was accepted is delivered *)
+    Encode (Some body) (Some ind) newline w = (EErr e, {| wresp := tl; wgot := wgot w ++ firstn (Nat.min k (length p)) p |})
+  | (k, None) :: tl =>
+    if length p <=? k
+    then Encode (Some body) (Some ind) newline w = (ENil, {| wresp := tl; wgot := wgot w ++ p |})
+    else                       (* a short write without error: io.ErrShortWrite, no retry *)
+      Encode (Some body) (Some ind) newline w = (EErr ErrShortWrite, {| wresp := tl; wgot := wgot w ++ firstn k p |})
+  end.
+Proof.
+  intros body ind newline w p NE. unfold Encode. fold p. cbv zeta.
+  destruct p as [|c p'] eqn:P; [congruence|]. rewrite <- P in *. unfold w_write.
+  destruct (wresp w) as [|[k [e|]] tl].
+  - rewrite Nat.eqb_refl. reflexivity.
+  - reflexivity.
+  - destruct (length p <=? k) eqn:L.
+    + apply Nat.leb_le in L. rewrite Nat.min_r by lia. rewrite Nat.eqb_refl, firstn_all. reflexivity.
+    + apply Nat.leb_gt in L. rewrite Nat.min_l by lia.
+      assert (k =? length p = false) as -> by (apply Nat.eqb_neq; lia). reflexivity.
 Qed.
